@@ -48,7 +48,9 @@ theorem C20_total (σ : Env) (fmt : Bytes) : ∃ out, replace σ fmt = .ok out :
 /-- Values are inserted verbatim and the rest of the line does not depend on them: a format
 `pre{body}rest` (no `{` in `pre`, no `}` in `body`, neither ending in a backslash) expands to
 `pre` (unescaped, one leading backslash dropped) ++ the value of `{body}`, whatever bytes it
-contains ++ the expansion of `rest`. -/
+contains ++ the expansion of `rest`.  (`v` is what `getSubstitution` returns: request text as it
+is, except that CR and LF of decoded or middleware-supplied text are written `\\r` `\\n` — see
+`C20_one_physical_line`; braces, backslashes and everything else are untouched.) -/
 theorem C20_values_verbatim (σ : Env) (pre body rest v out : Bytes)
     (hpre : ∀ x ∈ pre, x ≠ lbr) (hpe : endsBsl false pre = false)
     (hbody : ∀ x ∈ body, x ≠ rbr) (hbe : endsBsl false body = false)
@@ -135,13 +137,42 @@ theorem C20_escaped_literal (σ : Env) (s : Bytes) (h : splitUnesc lbr false s =
 example : splitUnesc lbr false (asc "a\\{method\\}b\\{") = none := by decide
 example : okIs (replace { method := asc "GET" } (asc "\\{method\\} {method}")) (asc "{method} GET") = true := by decide
 
+/-- One record, one physical line: if the format's own text has no CR/LF and the parts of the
+request that net/http hands over undecoded (header fields, cookies, host, method, raw query, request
+URI, remote address) or that the operator controls (empty marker, environment) have none, the
+expansion has none — WHATEVER the decoded parts contain (URL path, query arguments, fragment,
+custom values such as the basic auth user name): those go through `oneLine`. -/
+theorem C20_one_physical_line (σ : Env) (fmt out : Bytes) (hf : litsHaveLineBreak fmt = false)
+    (he : envHasLineBreak σ = false) (ho : replace σ fmt = .ok out) : hasLineBreak out = false := by
+  rw [C20_single_pass] at ho
+  unfold expected at ho
+  unfold litsHaveLineBreak at hf
+  cases hp : parseFmt fmt with
+  | none => simp [hp] at hf
+  | some segs =>
+    simp only [hp] at hf ho
+    exact render_clean σ (envClean_of he) segs out hf ho
+
+/-- test: a path with a decoded newline and a basic auth user with CR LF; the default-style format
+stays on one line (the hypotheses of `C20_one_physical_line` hold: path and custom are free) -/
+example :
+    let σ : Env := { origPath := [47, 97, 10, 98], custom := [(asc "{user}", [101, 13, 10, 102])], method := asc "GET" }
+    litsHaveLineBreak (asc "{user} {method} {path}") = false ∧ envHasLineBreak σ = false ∧
+    okIs (replace σ (asc "{user} {method} {path}")) (asc "e\\r\\nf GET /a\\nb") = true := by
+  decide
+
 /-- Model and judge are one spec: the verdict the driver applies to the real code's output is
 "ok" on the model's own output, for every format and request. -/
 theorem C20_replace_model_verdict_ok (σ : Env) (fmt : Bytes) :
     verdict σ fmt (observe (replace σ fmt)) = "ok" := by
   obtain ⟨out, ho⟩ := C20_total σ fmt
   have he : expected σ fmt = .ok out := by rw [← C20_single_pass, ho]
-  simp [ho, observe, verdict, he]
+  by_cases hl : (hasLineBreak out && !(litsHaveLineBreak fmt) && !(envHasLineBreak σ)) = true
+  · simp only [Bool.and_eq_true, Bool.not_eq_true'] at hl
+    have := C20_one_physical_line σ fmt out hl.1.2 hl.2 ho
+    rw [this] at hl
+    exact absurd hl.1.1 (by simp)
+  · simp [ho, observe, verdict, he, hl]
 
 /-- the judge is not vacuous: an implementation that expands inserted text again is rejected -/
 example :
@@ -312,6 +343,29 @@ example :
       { ops := [.write 3], ret := 0, panics := false, newPath := some [47, 98] }
     r.lines = [{ entry := 0, status := 404, size := 14 }] ∧ r'.lines = [] := by
   decide
+
+/-- what `log` sees below it in a block that has (`true`) or has not an `errors` directive;
+a block with `gzip` always has one (`InspectServerBlocks`, see `Props/C09.gzip_implies_errors`) -/
+def belowLog (hasErrors : Bool) (errLen : Nat → Nat) (o : Outcome) : Outcome :=
+  if hasErrors then withErrors errLen o else o
+
+/-- One line per configured log with the panic exclusion narrowed to where it is real: the only
+handler behaviours excluded are panics in a block WITHOUT an `errors` (or `gzip`) directive.  With
+`errors` in the block the statement holds for every handler behaviour whatsoever.  (Still partial:
+the first-rule-only exclusion stays.) -/
+theorem C20_one_line_per_entry_partial_narrow (m : PathB → PathB → Bool) (errLen : Nat → Nat) (ds : List Directive)
+    (path : PathB) (o : Outcome) (hasErrors : Bool) (hp : hasErrors = true ∨ o.panics = false)
+    (i : Nat) (d : Directive) (hd : ds[i]? = some d) (hns : shadowed m ds d path = false) :
+    countFor (serverServe m errLen (logParse ds) path (belowLog hasErrors errLen o)).lines i =
+      if wants m d path then 1 else 0 := by
+  apply C20_one_line_per_entry_partial m errLen ds path _ _ i d hd hns
+  unfold belowLog
+  cases hasErrors with
+  | true => exact C20_errors_directive_contains_panics errLen o
+  | false =>
+    rcases hp with h | h
+    · exact absurd h (by simp)
+    · simpa using h
 
 /-- test: a panicking handler behind `errors`: one line, status 500, size of the error body -/
 example :
